@@ -8,6 +8,7 @@ import (
 	"hash"
 	"io"
 	"os"
+	"regexp"
 	"runtime/debug"
 	"sort"
 	"strconv"
@@ -152,15 +153,19 @@ func Main(t *testing.T, engine string, props []string, fn func(r *R)) {
 			if _, isStop := p.(stopRun); isStop {
 				return
 			}
-			r.finish(&violation{Oracle: "sut_panic", Msg: fmt.Sprintf("%v\n%s", p, trimStack(debug.Stack()))}, "")
+			r.finish(&violation{Oracle: "sut_panic", Msg: hexAddr.ReplaceAllString(fmt.Sprintf("%v", p), "0x?") + "\n" + trimStack(debug.Stack())}, "")
 		}
 	}()
 	fn(r)
 	r.finish(nil, "")
 }
 
+var hexAddr = regexp.MustCompile(`0x[0-9a-f]+`)
+
+// trimStack shortens a stack trace and removes addresses (they differ from process to process and
+// would make the event-log hash of an otherwise identical run differ).
 func trimStack(b []byte) string {
-	s := string(b)
+	s := hexAddr.ReplaceAllString(string(b), "0x?")
 	if len(s) > 6000 {
 		s = s[:6000]
 	}
